@@ -363,6 +363,41 @@ func (e *Exec) zzIntrinsic(name string, args []Value) (Value, bool) {
 		}
 		out := e.ufBytes(nm, parts, n)
 		return e.bytesToSlice(out), true
+	case "zzUF64":
+		// zzUF64(name, outWords, args ...[]uint64) []uint64
+		nm := e.argStr(args[0])
+		n := e.argInt(args[1])
+		var parts []*Term
+		for _, a := range e.variadic(args[2]) {
+			parts = append(parts, e.sliceTerms(a)...)
+		}
+		e.run.stubs["UF:"+nm] = true
+		var res *Term
+		if len(parts) == 0 {
+			res = b.UF(fmt.Sprintf("%s_0_%dw", nm, n), Sort(64*n))
+		} else {
+			arg := parts[0]
+			for _, p := range parts[1:] {
+				arg = b.Concat(p, arg)
+			}
+			res = b.UF(fmt.Sprintf("%s_%d_%dw", nm, int(arg.S), n), Sort(64*n), arg)
+		}
+		arr := e.newArrayCell(types.Typ[types.Uint64], n)
+		for i := 0; i < n; i++ {
+			arr.elems[i].v = b.Extract(res, 64*i+63, 64*i)
+		}
+		return &SliceV{arr: arr, off: 0, len: n, cap: n}, true
+	case "zzHavoc":
+		// fill every integer leaf with a fresh unconstrained value (model-level nondeterminism)
+		e.run.havocN++
+		e.fillValue(args[0], fmt.Sprintf("havoc!%d", e.run.havocN))
+		return nil, true
+	case "zzFreshBool":
+		e.run.havocN++
+		return b.Eq(b.Var(fmt.Sprintf("havocb!%d", e.run.havocN), 1), b.ConstU(1, 1)), true
+	case "zzFreshU64":
+		e.run.havocN++
+		return b.Var(fmt.Sprintf("havocw!%d", e.run.havocN), 64), true
 	case "zzUFBool":
 		nm := e.argStr(args[0])
 		var parts []*Term
